@@ -50,6 +50,7 @@ UNITS.append(dict(
     harness="kani/oh/verif_schedule.rs",
     modname="verif_schedule",
     modpath="schedule::verif_schedule",
+    pub_mod=True,
     deps=["syntax.sorted_vec", "syntax.extended_time"],
 ))
 
@@ -60,7 +61,18 @@ UNITS.append(dict(
     harness="kani/oh/verif_date_filter.rs",
     modname="verif_date_filter",
     modpath="filter::date_filter::verif_date_filter",
+    pub_mod=True,
     deps=["syntax.extended_time"],
+))
+
+UNITS.append(dict(
+    id="oh.time_filter",
+    package="",
+    owner="opening-hours/src/filter/time_filter.rs",
+    harness="kani/oh/verif_time_filter.rs",
+    modname="verif_time_filter",
+    modpath="filter::time_filter::verif_time_filter",
+    deps=["oh.schedule", "oh.date_filter", "syntax.extended_time", "syntax.sorted_vec"],
 ))
 
 VERUS_UNITS = [
